@@ -156,6 +156,15 @@ def cases(tier, seed):
         rng = gen.rng_for(seed, ID, i)
         sp, edge = one(rng, c, s, m, i)
         out.append({"spec": sp, "edge": edge})
+    # rain-fed crops in dry climates, re-wetted on their harvest day (two passes, see run_case)
+    nrw = base.n_cases(24, 240, tier)
+    dry_crops = ["CottonGDD", "SoybeanGDD", "MaizeGDD", "SunflowerGDD", "SorghumGDD", "WheatGDD", "Cotton", "Maize", "Soybean", "TomatoGDD"]
+    for j in range(nrw):
+        rng = gen.rng_for(seed, ID, 2 * 10 ** 6 + j)
+        sp = gen.config(rng, crops=[dry_crops[j % len(dry_crops)]], methods=(0,), seasons=(2, 3), p_gw=0.0, p_bunds=0.0,
+                        regimes=["arid", "warm", "hot"], p_file=0.3, iwc_kinds=("FC", "Pct"), p_custom=0.0,
+                        soil_names=["SandyLoam", "Loam", "Sand", "LoamySand", "SiltLoam"], end_shape="after")
+        out.append({"spec": sp, "edge": None, "rewater": True})
     return out
 
 
@@ -225,6 +234,20 @@ def run_case(case):
     acc = base.Acc(spec)
     cov = acc.cov
     res = sim.run(spec, opts=dict(ledger=False, irr=False))
+    if case.get("rewater") and res.status == "ok" and res.summary is not None and len(res.summary):
+        # second pass: the same rain-fed run, with a heavy irrigation on (and just before) every
+        # harvest day of the first pass - a crop that arrives at the end of its season in
+        # drought-induced senescence is re-wetted on its very last day
+        import copy
+        import datetime as dt
+
+        S0 = S.d(spec["start"])
+        days = sorted(set(int(h) + o for h in res.summary["Harvest Date (Step)"].tolist() for o in (0,)))
+        spec = copy.deepcopy(spec)
+        spec["irr"] = {"method": 3, "kw": {"MaxIrr": 100.0}, "schedule": [[gen.fmt(S0 + dt.timedelta(days=d_)), 80.0] for d_ in days]}
+        res = sim.run(spec, opts=dict(ledger=False, irr=False))
+        cov["rewatered_on_harvest_day_runs"] += 1
+        cov["executions"] += 1
     feats = features(spec, res)
     tr = res.trace
     nt = False
